@@ -35,7 +35,7 @@ SPEC = {
         "Sema.C08.C08_answer_indep_partial", "Sema.C08.C08_history_partial", "Sema.C08.C08_history_graphNode",
         "Sema.C08.C08_params_persist_binary", "Sema.C08.C08_params_persist_product",
         "Sema.C08.C08_fit_then_flush", "Sema.C08.C08_fit_then_flush_binary", "Sema.C08.C08_flush_before_fit_witness",
-        "Sema.C08.C08_flush_before_fit_params_witness",
+        "Sema.C08.C08_flush_before_fit_params_witness", "Sema.C08.C08_train_in_batch_binary",
         "Sema.C08.C08_read_copies_stable", "Sema.C08.C08_read_copies_warm_cold", "Sema.C08.C08_alias_unstable_witness",
     ],
     "trusted_base": [
